@@ -280,8 +280,13 @@ func (e *Enc) structSort(n *types.Named, st *types.Struct) string {
 		if n.TypeArgs() != nil && n.TypeArgs().Len() > 0 {
 			name += "_" + sanitize(shortTypeName(n.TypeArgs().At(0)))
 		}
+	} else if st.NumFields() == 0 {
+		name = "S_empty"
 	} else {
-		name = "S_anon_" + fmt.Sprint(len(e.structs))
+		name = "S_anon_" + sanitize(st.String())
+	}
+	if _, done := e.structs[name]; done && n == nil {
+		return name
 	}
 	if !expand {
 		s := "O" + name[1:]
